@@ -76,6 +76,7 @@ Supported13(d) ==
          /\ \A i \in DOMAIN d.cols : "type" \in DOMAIN d.cols[i] /\ SqliteHasType(d.cols[i].type)
                                      /\ (HasSpec(d.cols[i], "AutoIncrement") => HasSpec(d.cols[i], "PrimaryKey") /\ d.cols[i].type.k \in {"Integer", "BigInteger", "Unsigned", "BigUnsigned"})
          /\ ("indexes" \in DOMAIN d => \A i \in DOMAIN d.indexes : ("primary" \in DOMAIN d.indexes[i] /\ d.indexes[i].primary) \/ ("unique" \in DOMAIN d.indexes[i] /\ d.indexes[i].unique))
+         /\ ("indexes" \in DOMAIN d => \A i \in DOMAIN d.indexes : "where" \notin DOMAIN d.indexes[i])      \* no partial table constraints in SQLite
          /\ ~("temporary" \in DOMAIN d /\ d.temporary)
          /\ "engine" \notin DOMAIN d /\ "collate" \notin DOMAIN d /\ "character_set" \notin DOMAIN d        \* MySQL table options
          /\ ~((\E i \in DOMAIN d.cols : HasSpec(d.cols[i], "PrimaryKey")) /\ "indexes" \in DOMAIN d /\ \E i \in DOMAIN d.indexes : "primary" \in DOMAIN d.indexes[i] /\ d.indexes[i].primary)
